@@ -139,6 +139,35 @@ Qed.
 Lemma get_put_same p k v d : get p k (put p k v d) = Some v.
 Proof. unfold get, put. simpl. now rewrite same_slot_refl. Qed.
 
+Lemma find_del_same p k d : find (same_slot p k) (del p k d) = None.
+Proof.
+  unfold del. induction d as [|r d IH]; simpl; [reflexivity|].
+  destruct (same_slot p k r) eqn:E; simpl; [exact IH|]. rewrite E. exact IH.
+Qed.
+
+(** reading a slot after a list of writes: the last write to the slot wins *)
+Definition upd (p : list seg) (k : term) (r : option (list term)) (w : write) : option (list term) :=
+  if path_eqb p (fst (wslot w)) && term_eqb k (snd (wslot w))
+  then match w with WPut _ _ v => Some v | WDel _ _ => None end
+  else r.
+
+Lemma get_apply_write p k w d : get p k (apply_write w d) = upd p k (get p k d) w.
+Proof.
+  unfold upd. destruct (path_eqb p (fst (wslot w)) && term_eqb k (snd (wslot w))) eqn:E.
+  - apply andb_true_iff in E. destruct E as [E1 E2]. apply path_eqb_eq in E1. apply term_eqb_eq in E2.
+    destruct w as [p' k' v|p' k']; simpl in *; subst.
+    + apply get_put_same.
+    + unfold get. now rewrite find_del_same.
+  - now apply get_apply_write_other.
+Qed.
+
+Lemma get_apply_writes p k ws : forall d,
+  get p k (apply_writes ws d) = fold_left (upd p k) ws (get p k d).
+Proof.
+  unfold apply_writes. induction ws as [|w ws IH]; simpl; intros d; [reflexivity|].
+  rewrite IH. now rewrite get_apply_write.
+Qed.
+
 Lemma slot_free_app p k a b : slot_free p k (a ++ b) = slot_free p k a && slot_free p k b.
 Proof. unfold slot_free. apply forallb_app. Qed.
 
@@ -283,6 +312,68 @@ Proof.
     apply orb_false_iff in Hf; destruct Hf; auto.
 Qed.
 
+(* ------------------------------------------- the sealing-site table [T] *)
+
+(** Everything the proofs know about a sealed field [sealT T s x]: the three
+    facts below, for every table that passes [table_ok]. *)
+
+Lemma in_all_sites s : In s all_sites.
+Proof. destruct s; unfold all_sites; simpl; repeat (first [left; reflexivity|right]). Qed.
+
+Lemma table_ok_entry T s : table_ok T = true -> entry_ok s (T s) = true.
+Proof. unfold table_ok. rewrite forallb_forall. intros H. apply H. apply in_all_sites. Qed.
+
+Lemma class_of_atom_of strict c x : class_of strict (atom_of c x) = cclass strict c.
+Proof. destruct c; reflexivity. Qed.
+
+Lemma private_atom_of c x : private_atom (atom_of c x) = content_private c.
+Proof. destruct c; reflexivity. Qed.
+
+Lemma never_atom_of c x : never_atom (atom_of c x) = content_never c.
+Proof. destruct c; reflexivity. Qed.
+
+Lemma ok_seal T (HT : table_ok T = true) strict s x :
+  ok strict false false false (sealT T s x) = true.
+Proof.
+  pose proof (table_ok_entry T s HT) as He. unfold entry_ok, entry_safe in He.
+  apply andb_true_iff in He. destruct He as [He _].
+  apply andb_true_iff in He. destruct He as [He _].
+  apply andb_true_iff in He. destruct He as [H0 H1].
+  assert (Hs : seal_ok_for strict (T s) = true) by (destruct strict; assumption).
+  unfold sealT. cbn [ok orb]. rewrite class_of_atom_of.
+  unfold seal_ok_for in Hs. destruct (cclass strict (e_content (T s)));
+    [discriminate Hs|exact Hs|reflexivity|reflexivity].
+Qed.
+
+Lemma never_seal T (HT : table_ok T = true) s x : mentions never_atom (sealT T s x) = false.
+Proof.
+  pose proof (table_ok_entry T s HT) as He. unfold entry_ok, entry_safe in He.
+  apply andb_true_iff in He. destruct He as [He _].
+  apply andb_true_iff in He. destruct He as [_ Hn]. apply negb_true_iff in Hn.
+  unfold sealT. cbn [mentions]. rewrite never_atom_of. exact Hn.
+Qed.
+
+Lemma priv_seal T (HT : table_ok T = true) s x :
+  site_survives s = true -> has_private (sealT T s x) = false.
+Proof.
+  intros Hs. pose proof (table_ok_entry T s HT) as He. unfold entry_ok in He.
+  apply andb_true_iff in He. destruct He as [_ Hp]. rewrite Hs in Hp. simpl in Hp.
+  apply negb_true_iff in Hp.
+  unfold sealT. cbn [has_private]. rewrite private_atom_of. exact Hp.
+Qed.
+
+(** from here on a sealed field is a black box *)
+Local Arguments sealT : simpl never.
+Local Opaque sealT.
+
+(** rewrite the three facts wherever they apply ([priv_seal] only at the
+    sites that survive a conversion) *)
+Ltac seal_rewrite HT :=
+  rewrite ?(ok_seal _ HT), ?(never_seal _ HT);
+  repeat match goal with
+         | |- context [has_private (sealT ?T ?s ?x)] => rewrite (priv_seal T HT s x) by reflexivity
+         end.
+
 (* -------------------------------------------------------- the invariant *)
 
 Definition is_main_private (r : row) : bool :=
@@ -317,6 +408,16 @@ Record Inv (strip_tr allow_tr : bool) (st : state) : Prop := {
   inv_wo : created st = true -> wo st = disk_wo (dsk st);
   inv_fresh : created st = false -> wo st = false /\ dsk st = []
 }.
+
+(** the part of the invariant that is about the watching-only flag alone; it
+    is preserved for EVERY table (no [table_ok]) and every history *)
+Record InvW (st : state) : Prop := {
+  invw_wo : created st = true -> wo st = disk_wo (dsk st);
+  invw_fresh : created st = false -> wo st = false /\ dsk st = []
+}.
+
+Lemma Inv_InvW sp al st : Inv sp al st -> InvW st.
+Proof. intros [_ H1 H2]. constructor; assumption. Qed.
 
 Definition secret_taproot_import (o : op) : bool :=
   match o with OImportScript _ _ _ (KTaproot true) => true | _ => false end.
@@ -364,12 +465,17 @@ Ltac unfold_good :=
   unfold gP, good_row, jrow, resid, ok_row, clean_row, avoids_never, tr_secret_row,
          is_ctpriv, is_main_private, fields in *.
 
+Ltac split_hyps :=
+  repeat match goal with H : _ && _ = true |- _ => apply andb_true_iff in H; destruct H end.
+Ltac split_goal := repeat (apply andb_true_iff; split).
+
 Lemma stripped_good sp al p k v v' :
   strip_shape sp p v v' ->
   gP sp al false {| r_path := p; r_key := k; r_val := v |} ->
   gP sp al true {| r_path := p; r_key := k; r_val := v' |}.
 Proof.
-  intros Hs. inversion Hs; subst; unfold_good; simpl; intros H; bsolve.
+  intros Hs. inversion Hs; subst; unfold_good; simpl; intros H;
+    split_hyps; split_goal; try assumption; try reflexivity; bsolve.
 Qed.
 
 Lemma strip_shape_path sp p v v' : strip_shape sp p v v' ->
@@ -448,10 +554,6 @@ Proof.
   destruct x; simpl in *; [exact H|exact I].
 Qed.
 
-Ltac split_hyps :=
-  repeat match goal with H : _ && _ = true |- _ => apply andb_true_iff in H; destruct H end.
-Ltac split_goal := repeat (apply andb_true_iff; split).
-
 Lemma read_acct_good sp al w s a d i :
   Forall (gP sp al w) d -> read_acct s a d = Some i ->
   forall i', ai_kind i' = ai_kind i ->
@@ -484,39 +586,68 @@ Ltac kill_true H :=
 Ltac closed_rows sp al st :=
   apply wPb_Forall; destruct (wo st), sp, al; simpl; try reflexivity.
 
-Lemma writes_good sp al st o ws :
+(** rows with sealed fields: reduce around the black boxes, then use the
+    three facts about [sealT] *)
+Ltac seal_rows HT :=
+  apply wPb_Forall;
+  unfold script_val, script_field, import_val, seal_opt, new_default_acct, new_watch_acct;
+  simpl;
+  unfold good_row, jrow, resid, ok_row, clean_row, avoids_never, tr_secret_row,
+         is_ctpriv, is_main_private, fields;
+  simpl; seal_rewrite HT; simpl; rewrite ?orb_true_r; reflexivity.
+
+Lemma w_key_scope_good T sp al s :
+  table_ok T = true -> Forall (wP (gP sp al false)) (w_key_scope T s).
+Proof. intros HT. destruct sp, al; seal_rows HT. Qed.
+
+Lemma w_create_good T sp al :
+  table_ok T = true -> Forall (wP (gP sp al false)) (w_create T).
+Proof.
+  intros HT. unfold w_create.
+  apply Forall_app; split; [apply wPb_Forall; destruct sp, al; reflexivity|].
+  apply Forall_app; split; [apply wPb_Forall; destruct sp, al; reflexivity|].
+  apply Forall_app; split; [apply Forall_flat_map_intro; intros s _; now apply w_key_scope_good|].
+  apply Forall_app; split; [destruct sp, al; seal_rows HT|].
+  apply Forall_app; split; apply wPb_Forall; destruct sp, al; reflexivity.
+Qed.
+
+Lemma writes_good T sp al st o ws :
+  table_ok T = true ->
   Inv sp al st -> admissible al o = true ->
-  writes sp st o = Some ws ->
+  writes T sp st o = Some ws ->
   (o = OConvert /\ wo st = false /\ created st = true /\ ws = w_convert sp (dsk st))
   \/ Forall (wP (gP sp al (wo st))) ws.
 Proof.
-  intros [Hrows Hwo Hfresh] Hadm H.
+  intros HT [Hrows Hwo Hfresh] Hadm H.
   destruct o; simpl in H.
   - (* OCreate *) cond H. inversion H; subst. right.
-    destruct (Hfresh eq_refl) as [-> _]. apply wPb_Forall. destruct sp, al; vm_compute; reflexivity.
+    destruct (Hfresh eq_refl) as [-> _]. now apply w_create_good.
   - cond H. inversion H. right. constructor.
   - cond H. inversion H. right. constructor.
   - cond H. inversion H. right. constructor.
   - (* ONewAccount *) cond H. inversion H; subst. right.
     destruct (wo st) eqn:W; [exfalso; kill_true Heqb|].
-    apply wPb_Forall. destruct sp, al; simpl; reflexivity.
+    destruct sp, al; seal_rows HT.
   - (* ONewScope *) cond H. inversion H; subst. right.
     destruct (wo st) eqn:W; [exfalso; kill_true Heqb|].
-    apply wPb_Forall. destruct sp, al; simpl; reflexivity.
+    constructor; [|now apply w_key_scope_good].
+    destruct sp, al; reflexivity.
   - (* ODerive *) cond H. destruct (read_acct s acct (dsk st)) as [i|] eqn:R; [|discriminate]. cond H.
     inversion H; subst. right. apply Forall_flat_map_intro. intros idx _. unfold w_chain.
     apply Forall_app. split.
     + apply wPb_Forall. destruct (wo st), sp, al; simpl; reflexivity.
     + constructor; [|constructor]. simpl. eapply read_acct_good; eauto. destruct internal; reflexivity.
-  - (* OImportPriv *) cond H. inversion H; subst. right. closed_rows sp al st.
-  - cond H. inversion H; subst. right. closed_rows sp al st.
+  - (* OImportPriv *) cond H. inversion H; subst. right.
+    destruct (wo st), sp, al; seal_rows HT.
+  - (* OImportPub *) cond H. inversion H; subst. right.
+    destruct (wo st), sp, al; seal_rows HT.
   - (* OImportScript *) cond H. inversion H; subst. right.
     unfold admissible in Hadm. simpl in Hadm.
-    apply wPb_Forall. destruct k as [|sec|sec]; try destruct sec;
+    destruct k as [|sec|sec]; try destruct sec;
       destruct (wo st) eqn:W, (locked st) eqn:L, sp, al; simpl in *; try (exfalso; kill_true Heqb; fail);
-      try discriminate; reflexivity.
-  - (* OImportXpub *) cond H. inversion H; subst. right. apply wPb_Forall.
-    destruct (wo st), sp, al, with_schema; simpl; reflexivity.
+      try discriminate; seal_rows HT.
+  - (* OImportXpub *) cond H. inversion H; subst. right.
+    destruct (wo st), sp, al, with_schema; seal_rows HT.
   - (* ORename *) cond H. destruct (read_acct s acct (dsk st)) as [i|] eqn:R; [|discriminate].
     inversion H; subst. right. constructor; [exact I|]. constructor; [exact I|].
     unfold w_account. constructor.
@@ -524,8 +655,8 @@ Proof.
     + apply wPb_Forall. destruct (wo st), sp, al; simpl; reflexivity.
   - (* OChangePass *) cond H. destruct private; inversion H; subst; right.
     + destruct (wo st) eqn:W; [exfalso; kill_true Heqb|].
-      apply wPb_Forall. destruct sp, al; simpl; reflexivity.
-    + closed_rows sp al st.
+      destruct sp, al; seal_rows HT.
+    + destruct (wo st), sp, al; seal_rows HT.
   - (* OMarkUsed *) cond H. match type of H with (if ?c then _ else _) = _ => destruct c end; inversion H; subst; right.
     + constructor.
     + closed_rows sp al st.
@@ -537,8 +668,8 @@ Proof.
     + left. apply negb_false_iff in Heqb. auto.
 Qed.
 
-Lemma writes_created sp st o ws :
-  writes sp st o = Some ws -> (o = OCreate /\ created st = false) \/ created st = true.
+Lemma writes_created T sp st o ws :
+  writes T sp st o = Some ws -> (o = OCreate /\ created st = false) \/ created st = true.
 Proof.
   intros H. destruct (created st) eqn:C; [now right|left].
   destruct o; simpl in H; rewrite ?C in H; simpl in H; try discriminate. auto.
@@ -555,8 +686,8 @@ Proof.
     apply strip_val_shape in S. apply strip_shape_path in S. destruct S as (s & b & ->). reflexivity.
 Qed.
 
-Lemma writes_keep_flag sp st o ws :
-  writes sp st o = Some ws ->
+Lemma writes_keep_flag T sp st o ws :
+  writes T sp st o = Some ws ->
   o = OCreate \/ (o = OConvert /\ wo st = false) \/ flag_slot_free ws = true.
 Proof.
   intros H. destruct o; simpl in H; auto; right.
@@ -588,58 +719,65 @@ Proof.
   now rewrite get_put_same.
 Qed.
 
-Lemma disk_wo_create : disk_wo (apply_writes w_create []) = false.
-Proof. vm_compute. reflexivity. Qed.
+Lemma disk_wo_create T : disk_wo (apply_writes (w_create T) []) = false.
+Proof. unfold disk_wo. rewrite get_apply_writes. reflexivity. Qed.
 
 Local Arguments apply_writes : simpl never.
 Local Arguments w_convert : simpl never.
 Local Arguments disk_wo : simpl never.
 
-Lemma step_inv sp al st o :
-  Inv sp al st -> admissible al o = true -> Inv sp al (fst (step sp st o)).
+(** the watching-only flag in memory is the flag on disk: for every table *)
+Lemma step_invW T sp st o : InvW st -> InvW (fst (step T sp st o)).
 Proof.
-  intros HI Hadm. pose proof HI as [Hrows Hwo Hfresh].
-  unfold step. destruct (writes sp st o) as [ws|] eqn:W; simpl.
+  intros HI. pose proof HI as [Hwo Hfresh].
+  unfold step. destruct (writes T sp st o) as [ws|] eqn:W; simpl.
   2:{ destruct o; try exact HI.
       destruct (created st && negb (wo st)); [|exact HI]. constructor; simpl; assumption. }
-  pose proof (writes_created _ _ _ _ W) as Hc.
-  pose proof (writes_keep_flag _ _ _ _ W) as Hk.
-  pose proof (writes_good _ _ _ _ _ HI Hadm W) as Hg.
-  destruct Hg as [(-> & Hw0 & Hcr & ->)|Hg].
-  - (* conversion *)
-    constructor; simpl.
-    + apply convert_good. now rewrite Hw0 in Hrows.
-    + intros _. now rewrite disk_wo_convert.
-    + intros C. congruence.
+  pose proof (writes_created _ _ _ _ _ W) as Hc.
+  pose proof (writes_keep_flag _ _ _ _ _ W) as Hk.
+  destruct Hc as [[-> Hcf]|Hct].
+  - (* create *) destruct (Hfresh Hcf) as [Hw0 Hd0]. simpl in W. rewrite Hcf in W. inversion W; subst ws.
+    constructor; simpl; [|discriminate].
+    intros _. rewrite Hd0, disk_wo_create. exact Hw0.
+  - assert (Hconv : o = OConvert -> disk_wo (apply_writes ws (dsk st)) = true).
+    { intros ->. simpl in W. rewrite Hct in W. simpl in W. destruct (wo st) eqn:Ew; inversion W; subst ws.
+      - change (apply_writes [] (dsk st)) with (dsk st). rewrite <- Hwo; auto.
+      - apply disk_wo_convert. }
+    assert (Hflag : o <> OConvert -> disk_wo (apply_writes ws (dsk st)) = wo st).
+    { intros Hn. destruct Hk as [->|[[-> _]|Hk]].
+      - simpl in W. rewrite Hct in W. discriminate.
+      - contradiction.
+      - unfold disk_wo. unfold flag_slot_free in Hk. rewrite get_apply_writes_free by exact Hk.
+        symmetry. now apply Hwo. }
+    destruct o; constructor; simpl;
+      try (intros _; symmetry; apply Hflag; discriminate);
+      try (intros C; congruence).
+    (* OConvert *) intros _. symmetry. now apply Hconv.
+Qed.
+
+Lemma step_inv T sp al st o :
+  table_ok T = true ->
+  Inv sp al st -> admissible al o = true -> Inv sp al (fst (step T sp st o)).
+Proof.
+  intros HT HI Hadm.
+  pose proof (step_invW T sp st o (Inv_InvW _ _ _ HI)) as [Hwo' Hfresh'].
+  constructor; [|exact Hwo'|exact Hfresh']. clear Hwo' Hfresh'.
+  pose proof HI as [Hrows Hwo Hfresh].
+  unfold step. destruct (writes T sp st o) as [ws|] eqn:W; simpl.
+  2:{ destruct o; try exact Hrows.
+      destruct (created st && negb (wo st)); exact Hrows. }
+  destruct (writes_good _ _ _ _ _ _ HT HI Hadm W) as [(-> & Hw0 & Hcr & ->)|Hg].
+  - (* conversion *) apply convert_good. now rewrite Hw0 in Hrows.
   - assert (Hrows' : Forall (gP sp al (wo st)) (apply_writes ws (dsk st)))
       by (apply Forall_apply_writes; assumption).
-    destruct Hc as [[-> Hcf]|Hct].
-    + (* create *) destruct (Hfresh Hcf) as [Hw0 Hd0]. simpl in W. rewrite Hcf in W. inversion W; subst ws.
-      constructor; simpl; [exact Hrows'| |discriminate].
-      intros _. rewrite Hd0, disk_wo_create. exact Hw0.
-    + assert (Hflag : o <> OCreate -> ~ (o = OConvert /\ wo st = false) ->
-                      disk_wo (apply_writes ws (dsk st)) = wo st).
-      { intros H1 H2. destruct Hk as [Hk|[Hk|Hk]]; [contradiction|contradiction|].
-        unfold disk_wo. unfold flag_slot_free in Hk. rewrite get_apply_writes_free by exact Hk.
-        symmetry. now apply Hwo. }
-      destruct o; simpl in *;
-        try (constructor; simpl;
-             [exact Hrows'
-             |intros _; symmetry; apply Hflag; [discriminate|intros [? _]; discriminate]
-             |intros C; congruence]).
-      * (* OCreate impossible: created *) rewrite Hct in W. discriminate.
-      * (* OReopen *) rewrite Hct in W. inversion W; subst ws.
-        change (apply_writes [] (dsk st)) with (dsk st) in *.
-        constructor; simpl; [|reflexivity|intros C; congruence].
-        rewrite <- (Hwo Hct). exact Hrows.
-      * (* OConvert with wo already set *)
-        rewrite Hct in W. simpl in W. destruct (wo st) eqn:Ew.
-        { inversion W; subst ws. change (apply_writes [] (dsk st)) with (dsk st) in *.
-          constructor; simpl; [exact Hrows|intros _; now apply Hwo|intros C; congruence]. }
-        { inversion W; subst ws. constructor; simpl.
-          - apply convert_good. exact Hrows.
-          - intros _. now rewrite disk_wo_convert.
-          - intros C; congruence. }
+    destruct o; try exact Hrows'.
+    + (* OReopen *) simpl in W. destruct (created st) eqn:C; [|discriminate]. inversion W; subst ws.
+      change (apply_writes [] (dsk st)) with (dsk st) in *.
+      rewrite <- (Hwo eq_refl). exact Hrows.
+    + (* OConvert *) simpl in W. destruct (created st); simpl in W; [|discriminate].
+      destruct (wo st) eqn:Ew; inversion W; subst ws.
+      * exact Hrows'.
+      * apply convert_good. exact Hrows.
 Qed.
 
 (* ---- histories ------------------------------------------------------- *)
@@ -647,40 +785,53 @@ Qed.
 Lemma inv_init sp al : Inv sp al init.
 Proof. constructor; simpl; [constructor|discriminate|auto]. Qed.
 
-Definition run_from (sp : bool) (st : state) (h : list op) : state :=
-  fold_left (fun st o => fst (step sp st o)) h st.
+Lemma invw_init : InvW init.
+Proof. constructor; simpl; [discriminate|auto]. Qed.
 
-Lemma run_from_app sp st h1 h2 : run_from sp st (h1 ++ h2) = run_from sp (run_from sp st h1) h2.
+Definition run_from (T : table) (sp : bool) (st : state) (h : list op) : state :=
+  fold_left (fun st o => fst (step T sp st o)) h st.
+
+Lemma run_from_app T sp st h1 h2 :
+  run_from T sp st (h1 ++ h2) = run_from T sp (run_from T sp st h1) h2.
 Proof. unfold run_from. apply fold_left_app. Qed.
 
-Lemma run_is_run_from sp h : run sp h = run_from sp init h.
+Lemma run_is_run_from T sp h : run T sp h = run_from T sp init h.
 Proof. reflexivity. Qed.
 
-Lemma inv_run_from sp al h : forall st,
-  Inv sp al st -> forallb (admissible al) h = true -> Inv sp al (run_from sp st h).
+Lemma inv_run_from T sp al h : table_ok T = true -> forall st,
+  Inv sp al st -> forallb (admissible al) h = true -> Inv sp al (run_from T sp st h).
 Proof.
-  induction h as [|o h IH]; simpl; intros st HI Ha; [exact HI|].
+  intros HT. induction h as [|o h IH]; simpl; intros st HI Ha; [exact HI|].
   apply andb_true_iff in Ha. destruct Ha as [Ho Hh]. apply IH; [|exact Hh]. now apply step_inv.
 Qed.
 
-Lemma inv_run sp al h : forallb (admissible al) h = true -> Inv sp al (run sp h).
-Proof. intros Ha. rewrite run_is_run_from. apply inv_run_from; [apply inv_init|exact Ha]. Qed.
+Lemma inv_run T sp al h :
+  table_ok T = true -> forallb (admissible al) h = true -> Inv sp al (run T sp h).
+Proof. intros HT Ha. rewrite run_is_run_from. apply inv_run_from; [exact HT|apply inv_init|exact Ha]. Qed.
+
+Lemma invw_run_from T sp h : forall st, InvW st -> InvW (run_from T sp st h).
+Proof.
+  induction h as [|o h IH]; simpl; intros st HI; [exact HI|]. apply IH. now apply step_invW.
+Qed.
+
+Lemma invw_run T sp h : InvW (run T sp h).
+Proof. rewrite run_is_run_from. apply invw_run_from. apply invw_init. Qed.
 
 Lemma admissible_true_all h : forallb (admissible true) h = true.
 Proof. induction h; simpl; auto. Qed.
 
-Lemma inv_boundaries sp al h : forall st,
-  Inv sp al st -> forallb (admissible al) h = true -> Forall (Inv sp al) (boundaries sp st h).
+Lemma inv_boundaries T sp al h : table_ok T = true -> forall st,
+  Inv sp al st -> forallb (admissible al) h = true -> Forall (Inv sp al) (boundaries T sp st h).
 Proof.
-  induction h as [|o h IH]; simpl; intros st HI Ha; [constructor|].
+  intros HT. induction h as [|o h IH]; simpl; intros st HI Ha; [constructor|].
   apply andb_true_iff in Ha. destruct Ha as [Ho Hh].
-  assert (HI' : Inv sp al (fst (step sp st o))) by now apply step_inv.
+  assert (HI' : Inv sp al (fst (step T sp st o))) by now apply step_inv.
   constructor; [exact HI'|apply IH; assumption].
 Qed.
 
 (** the commit boundaries are exactly the states after each non-empty prefix *)
-Lemma boundaries_prefix sp h : forall st st',
-  In st' (boundaries sp st h) -> exists n, st' = run_from sp st (firstn (S n) h).
+Lemma boundaries_prefix T sp h : forall st st',
+  In st' (boundaries T sp st h) -> exists n, st' = run_from T sp st (firstn (S n) h).
 Proof.
   induction h as [|o h IH]; simpl; intros st st' H; [destruct H|].
   destruct H as [<-|H].
@@ -694,19 +845,21 @@ Lemma good_row_ok sp al w r : gP sp al w r ->
   ok_row false r = true /\ ok_row true r = true /\ avoids_never r = true.
 Proof. unfold gP, good_row. intros H. bprop. tauto. Qed.
 
-Lemma every_row_ok sp h r :
-  In r (dsk (run sp h)) -> ok_row false r = true /\ ok_row true r = true /\ avoids_never r = true.
+Lemma every_row_ok T sp h r :
+  table_ok T = true ->
+  In r (dsk (run T sp h)) -> ok_row false r = true /\ ok_row true r = true /\ avoids_never r = true.
 Proof.
-  intros Hin. pose proof (inv_run sp true h (admissible_true_all h)) as [Hrows _ _].
+  intros HT Hin. pose proof (inv_run T sp true h HT (admissible_true_all h)) as [Hrows _ _].
   rewrite Forall_forall in Hrows. eapply good_row_ok. apply Hrows. exact Hin.
 Qed.
 
-Lemma every_boundary_ok sp h st r :
-  In st (boundaries sp init h) -> In r (dsk st) ->
+Lemma every_boundary_ok T sp h st r :
+  table_ok T = true ->
+  In st (boundaries T sp init h) -> In r (dsk st) ->
   ok_row false r = true /\ ok_row true r = true /\ avoids_never r = true.
 Proof.
-  intros Hst Hin.
-  pose proof (inv_boundaries sp true h init (inv_init sp true) (admissible_true_all h)) as HF.
+  intros HT Hst Hin.
+  pose proof (inv_boundaries T sp true h HT init (inv_init sp true) (admissible_true_all h)) as HF.
   rewrite Forall_forall in HF. destruct (HF st Hst) as [Hrows _ _].
   rewrite Forall_forall in Hrows. eapply good_row_ok. apply Hrows. exact Hin.
 Qed.
@@ -735,8 +888,8 @@ Qed.
 
 (* ---- lock / unlock have no disk effect --------------------------------- *)
 
-Lemma lock_unlock_no_disk_effect sp st o :
-  (o = OLock \/ exists b, o = OUnlock b) -> dsk (fst (step sp st o)) = dsk st.
+Lemma lock_unlock_no_disk_effect T sp st o :
+  (o = OLock \/ exists b, o = OUnlock b) -> dsk (fst (step T sp st o)) = dsk st.
 Proof.
   intros [->|[b ->]]; unfold step; simpl.
   - destruct (negb (created st) || wo st || locked st); reflexivity.
@@ -744,8 +897,8 @@ Proof.
     destruct (created st && negb (wo st)); reflexivity.
 Qed.
 
-Lemma lock_unlock_writes_nothing sp st o ws :
-  (o = OLock \/ exists b, o = OUnlock b) -> writes sp st o = Some ws -> ws = [].
+Lemma lock_unlock_writes_nothing T sp st o ws :
+  (o = OLock \/ exists b, o = OUnlock b) -> writes T sp st o = Some ws -> ws = [].
 Proof.
   intros [->|[b ->]]; simpl; intros H.
   - destruct (negb (created st) || wo st || locked st); [discriminate|now inversion H].
@@ -754,10 +907,10 @@ Qed.
 
 (* ---- (c) watching-only ------------------------------------------------- *)
 
-Lemma wo_step sp al st o : Inv sp al st -> wo st = true -> wo (fst (step sp st o)) = true.
+Lemma wo_step T sp st o : InvW st -> wo st = true -> wo (fst (step T sp st o)) = true.
 Proof.
-  intros [_ Hwo Hfresh] Hw. unfold step.
-  destruct (writes sp st o) as [ws|] eqn:W; simpl.
+  intros [Hwo Hfresh] Hw. unfold step.
+  destruct (writes T sp st o) as [ws|] eqn:W; simpl.
   - destruct o; simpl; try exact Hw; try reflexivity.
     (* OReopen *) simpl in W. destruct (created st) eqn:C; [|discriminate]. inversion W; subst.
     change (apply_writes [] (dsk st)) with (dsk st). rewrite <- Hwo; auto.
@@ -765,41 +918,49 @@ Proof.
     destruct (created st && negb (wo st)); exact Hw.
 Qed.
 
-Lemma wo_run_from sp al h : forall st,
-  Inv sp al st -> forallb (admissible al) h = true -> wo st = true -> wo (run_from sp st h) = true.
+Lemma wo_run_from T sp h : forall st,
+  InvW st -> wo st = true -> wo (run_from T sp st h) = true.
 Proof.
-  induction h as [|o h IH]; simpl; intros st HI Ha Hw; [exact Hw|].
-  apply andb_true_iff in Ha. destruct Ha as [Ho Hh].
-  apply IH; [now apply step_inv|exact Hh|eapply wo_step; eauto].
+  induction h as [|o h IH]; simpl; intros st HI Hw; [exact Hw|].
+  apply IH; [now apply step_invW|now apply wo_step].
 Qed.
 
-Lemma convert_sets_wo sp st : created st = true -> wo (fst (step sp st OConvert)) = true.
+Lemma convert_sets_wo T sp st : created st = true -> wo (fst (step T sp st OConvert)) = true.
 Proof.
   intros C. unfold step. simpl. rewrite C. simpl. destruct (wo st); reflexivity.
 Qed.
 
-Lemma created_step sp st o : created st = true -> created (fst (step sp st o)) = true.
+Lemma created_step T sp st o : created st = true -> created (fst (step T sp st o)) = true.
 Proof.
-  intros C. unfold step. destruct (writes sp st o); simpl.
+  intros C. unfold step. destruct (writes T sp st o); simpl.
   - destruct o; auto.
   - destruct o; auto. destruct (created st && negb (wo st)); auto.
 Qed.
 
+(** after a successful conversion the manager stays watching-only, whatever
+    follows: for every table (no [table_ok]) *)
+Lemma after_convert_wo T sp h1 h2 :
+  created (run T sp h1) = true ->
+  let st := run T sp (h1 ++ OConvert :: h2) in
+  InvW st /\ wo st = true.
+Proof.
+  intros C st. split; [apply invw_run|].
+  subst st. rewrite run_is_run_from, run_from_app. simpl.
+  apply wo_run_from.
+  - apply step_invW. rewrite <- run_is_run_from. apply invw_run.
+  - apply convert_sets_wo. exact C.
+Qed.
+
 (** state after [h1], a successful conversion, then any continuation *)
-Lemma after_convert sp al h1 h2 :
+Lemma after_convert T sp al h1 h2 :
+  table_ok T = true ->
   forallb (admissible al) (h1 ++ OConvert :: h2) = true ->
-  created (run sp h1) = true ->
-  let st := run sp (h1 ++ OConvert :: h2) in
+  created (run T sp h1) = true ->
+  let st := run T sp (h1 ++ OConvert :: h2) in
   Inv sp al st /\ wo st = true.
 Proof.
-  intros Ha C st. split; [now apply inv_run|].
-  subst st. rewrite run_is_run_from, run_from_app. simpl.
-  rewrite forallb_app in Ha. apply andb_true_iff in Ha. destruct Ha as [Ha1 Ha2].
-  simpl in Ha2. apply andb_true_iff in Ha2. destruct Ha2 as [_ Ha2].
-  assert (HI1 : Inv sp al (run_from sp init h1)) by (apply inv_run_from; [apply inv_init|exact Ha1]).
-  eapply wo_run_from; [|exact Ha2|].
-  - apply step_inv; [exact HI1|]. unfold admissible. simpl. now rewrite orb_true_r.
-  - apply convert_sets_wo. exact C.
+  intros HT Ha C st. split; [now apply inv_run|].
+  apply (after_convert_wo T sp h1 h2 C).
 Qed.
 
 Definition no_secret_taproot (h : list op) : bool := forallb (fun o => negb (secret_taproot_import o)) h.
@@ -808,57 +969,65 @@ Lemma admissible_false_all h : no_secret_taproot h = true -> forallb (admissible
 Proof. unfold no_secret_taproot, admissible. simpl. auto. Qed.
 
 (** general form: what may remain after conversion *)
-Lemma watching_only_rows sp h1 h2 r :
-  created (run sp h1) = true ->
-  In r (dsk (run sp (h1 ++ OConvert :: h2))) ->
+Lemma watching_only_rows T sp h1 h2 r :
+  table_ok T = true ->
+  created (run T sp h1) = true ->
+  In r (dsk (run T sp (h1 ++ OConvert :: h2))) ->
   clean_row r = true \/ (sp = false /\ tr_secret_row r = true).
 Proof.
-  intros C Hin.
-  destruct (after_convert sp true h1 h2 (admissible_true_all _) C) as [[Hrows _ _] Hw].
+  intros HT C Hin.
+  destruct (after_convert T sp true h1 h2 HT (admissible_true_all _) C) as [[Hrows _ _] Hw].
   rewrite Hw in Hrows. rewrite Forall_forall in Hrows. specialize (Hrows r Hin).
   unfold gP, good_row, resid in Hrows. bprop. destruct sp; simpl in *; intuition.
 Qed.
 
-Lemma watching_only_clean_if_stripped h1 h2 r :
-  created (run true h1) = true ->
-  In r (dsk (run true (h1 ++ OConvert :: h2))) -> clean_row r = true.
+Lemma watching_only_clean_if_stripped T h1 h2 r :
+  table_ok T = true ->
+  created (run T true h1) = true ->
+  In r (dsk (run T true (h1 ++ OConvert :: h2))) -> clean_row r = true.
 Proof.
-  intros C Hin. destruct (watching_only_rows true h1 h2 r C Hin) as [H|[H _]]; [exact H|discriminate].
+  intros HT C Hin.
+  destruct (watching_only_rows T true h1 h2 r HT C Hin) as [H|[H _]]; [exact H|discriminate].
 Qed.
 
-Lemma watching_only_clean_outside_K sp h1 h2 r :
+Lemma watching_only_clean_outside_K T sp h1 h2 r :
+  table_ok T = true ->
   no_secret_taproot (h1 ++ OConvert :: h2) = true ->
-  created (run sp h1) = true ->
-  In r (dsk (run sp (h1 ++ OConvert :: h2))) -> clean_row r = true.
+  created (run T sp h1) = true ->
+  In r (dsk (run T sp (h1 ++ OConvert :: h2))) -> clean_row r = true.
 Proof.
-  intros K C Hin.
-  destruct (after_convert sp false h1 h2 (admissible_false_all _ K) C) as [[Hrows _ _] Hw].
+  intros HT K C Hin.
+  destruct (after_convert T sp false h1 h2 HT (admissible_false_all _ K) C) as [[Hrows _ _] Hw].
   rewrite Hw in Hrows. rewrite Forall_forall in Hrows. specialize (Hrows r Hin).
   unfold gP, good_row, resid in Hrows. bprop. simpl in *.
   destruct Hrows as [[_ [Hf|Ht]] [Hc|[_ Ht']]]; try discriminate; try exact Hc. congruence.
 Qed.
 
-Lemma watching_only_api sp h1 h2 c :
-  created (run sp h1) = true ->
-  let st := run sp (h1 ++ OConvert :: h2) in
+(** holds for every table: it only depends on the watching-only flag *)
+Lemma watching_only_api T sp h1 h2 c :
+  created (run T sp h1) = true ->
+  let st := run T sp (h1 ++ OConvert :: h2) in
   refuses (api st c) = true /\ api st CUnlock = ErrWatchingOnly.
 Proof.
-  intros C st. destruct (after_convert sp true h1 h2 (admissible_true_all _) C) as [_ Hw].
+  intros C st. destruct (after_convert_wo T sp h1 h2 C) as [_ Hw].
   fold st in Hw. unfold api. rewrite Hw. rewrite orb_true_r. destruct c; auto.
 Qed.
 
-(** the flag read back by a later Open is set: a reopened manager is
-    watching-only *)
-Lemma watching_only_flag_on_disk sp h1 h2 :
-  created (run sp h1) = true ->
-  disk_wo (dsk (run sp (h1 ++ OConvert :: h2))) = true.
+Lemma created_run_from T sp h : forall st,
+  created st = true -> created (run_from T sp st h) = true.
 Proof.
-  intros C. destruct (after_convert sp true h1 h2 (admissible_true_all _) C) as [[_ Hwo _] Hw].
+  induction h as [|o h IH]; simpl; intros st Hs; [exact Hs|]. apply IH. now apply created_step.
+Qed.
+
+(** the flag read back by a later Open is set: a reopened manager is
+    watching-only (for every table) *)
+Lemma watching_only_flag_on_disk T sp h1 h2 :
+  created (run T sp h1) = true ->
+  disk_wo (dsk (run T sp (h1 ++ OConvert :: h2))) = true.
+Proof.
+  intros C. destruct (after_convert_wo T sp h1 h2 C) as [[Hwo _] Hw].
   rewrite <- Hwo; [exact Hw|].
-  rewrite run_is_run_from, run_from_app. simpl.
-  assert (created (fst (step sp (run_from sp init h1) OConvert)) = true) by (apply created_step; exact C).
-  clear - H. revert H. generalize (fst (step sp (run_from sp init h1) OConvert)).
-  induction h2 as [|o h IH]; simpl; intros s Hs; [exact Hs|]. apply IH. now apply created_step.
+  rewrite run_is_run_from, run_from_app. apply created_run_from. exact C.
 Qed.
 
 (* ---- rows keyed by sha256(address id) are never deleted ----------------- *)
@@ -872,8 +1041,8 @@ Proof.
   - destruct (strip_val sp (r_path r) (r_val r)); reflexivity.
 Qed.
 
-Lemma writes_keep_hashed sp st o ws p t :
-  writes sp st o = Some ws -> no_del_at p (Hash t) ws = true.
+Lemma writes_keep_hashed T sp st o ws p t :
+  writes T sp st o = Some ws -> no_del_at p (Hash t) ws = true.
 Proof.
   intros H. destruct o; simpl in H.
   - cond H; inversion H; subst. reflexivity.
@@ -900,26 +1069,26 @@ Proof.
     apply no_del_at_flat_map. intros r _. apply conv_row_keeps_hashed.
 Qed.
 
-Lemma hashed_row_step sp st o p t :
-  has p (Hash t) (dsk st) = true -> has p (Hash t) (dsk (fst (step sp st o))) = true.
+Lemma hashed_row_step T sp st o p t :
+  has p (Hash t) (dsk st) = true -> has p (Hash t) (dsk (fst (step T sp st o))) = true.
 Proof.
-  intros H. unfold step. destruct (writes sp st o) as [ws|] eqn:W; simpl.
+  intros H. unfold step. destruct (writes T sp st o) as [ws|] eqn:W; simpl.
   - apply has_apply_writes; [eapply writes_keep_hashed; eauto|exact H].
   - destruct o; try exact H.
     destruct (created st && negb (wo st)); exact H.
 Qed.
 
-Lemma hashed_row_run_from sp h p t : forall st,
-  has p (Hash t) (dsk st) = true -> has p (Hash t) (dsk (run_from sp st h)) = true.
+Lemma hashed_row_run_from T sp h p t : forall st,
+  has p (Hash t) (dsk st) = true -> has p (Hash t) (dsk (run_from T sp st h)) = true.
 Proof.
   induction h as [|o h IH]; simpl; intros st H; [exact H|]. apply IH. now apply hashed_row_step.
 Qed.
 
 (** every address row, address/account index entry and used flag present
     before the conversion is present after it and after any continuation *)
-Lemma addresses_survive sp h1 h2 p t :
-  has p (Hash t) (dsk (run sp h1)) = true ->
-  has p (Hash t) (dsk (run sp (h1 ++ h2))) = true.
+Lemma addresses_survive T sp h1 h2 p t :
+  has p (Hash t) (dsk (run T sp h1)) = true ->
+  has p (Hash t) (dsk (run T sp (h1 ++ h2))) = true.
 Proof.
   intros H. rewrite run_is_run_from, run_from_app. apply hashed_row_run_from. exact H.
 Qed.
@@ -933,4 +1102,111 @@ Proof.
   intros Hs. inversion Hs; subst; (split; [reflexivity|]); intros n t Hn;
     do 9 (destruct n as [|n]; simpl in *; [inversion Hn; subst; auto|]); try discriminate;
     destruct n; discriminate.
+Qed.
+
+(* ---- what a reader of the file learns ----------------------------------- *)
+
+(** Specification of a reader who holds the database file [d] and the PUBLIC
+    passphrase only.  He reads an atom when it occurs in a stored key or
+    value below wrappers he can all open; he opens a sealing when he holds
+    its key; he holds the master public key (derived from the public
+    passphrase), under [strict] the script key (S5: the in-memory script key
+    is the all-zero constant), and every key whose bytes, or whose
+    passphrase, he can read.  One-way wrappers are never opened. *)
+Inductive reads (strict : bool) (d : disk) : atom -> Prop :=
+| reads_field r t a c :
+    In r d -> In t (fields r) -> occurs a c t -> opens strict d c -> reads strict d a
+with opens (strict : bool) (d : disk) : list wrap -> Prop :=
+| opens_nil : opens strict d []
+| opens_enc k c : holds strict d k -> opens strict d c -> opens strict d (WEnc k :: c)
+with holds (strict : bool) (d : disk) : keyid -> Prop :=
+| holds_master_pub : holds strict d KMasterPub
+| holds_zero_key : strict = true -> holds strict d KCryptoScript
+| holds_cpub : reads strict d PKeyPub -> holds strict d KCryptoPub
+| holds_cpriv : reads strict d SKeyPriv -> holds strict d KCryptoPriv
+| holds_cscript : reads strict d SKeyScriptStored -> holds strict d KCryptoScript
+| holds_master_priv g : reads strict d (SPass true g) -> holds strict d KMasterPriv.
+
+Scheme reads_mut := Minimality for reads Sort Prop
+  with opens_mut := Minimality for opens Sort Prop
+  with holds_mut := Minimality for holds Sort Prop.
+Combined Scheme reads_opens_holds_ind from reads_mut, opens_mut, holds_mut.
+
+(** every wrapper the reader opens is a sealing under a non-private key *)
+Definition openable (strict : bool) (w : wrap) : Prop :=
+  match w with WEnc k => priv_key strict k = false | WOneWay => False end.
+
+Lemma reader_learns_nothing_secret strict d :
+  (forall r, In r d -> ok_row strict r = true) ->
+  (forall a, reads strict d a -> class_of strict a = Sensitive \/ class_of strict a = Public)
+  /\ (forall k, holds strict d k -> priv_key strict k = false).
+Proof.
+  intros Hd.
+  assert (H : (forall a, reads strict d a -> class_of strict a = Sensitive \/ class_of strict a = Public)
+              /\ (forall c, opens strict d c -> Forall (openable strict) c)
+              /\ (forall k, holds strict d k -> priv_key strict k = false)).
+  { apply reads_opens_holds_ind.
+    - (* reads_field *)
+      intros r t a c Hr Ht Hoc _ Hc.
+      pose proof (ok_row_occurrence strict r t a c (Hd r Hr) Ht Hoc) as Hal.
+      unfold allowed in Hal. rewrite Forall_forall in Hc.
+      destruct (class_of strict a); [exfalso|exfalso|now left|now right].
+      + exact (Hc _ Hal).
+      + destruct Hal as (k & Hk & Hp). specialize (Hc _ Hk). simpl in Hc. congruence.
+    - constructor.
+    - intros k c _ Hk _ Hc. constructor; [exact Hk|exact Hc].
+    - reflexivity.
+    - intros ->. reflexivity.
+    - intros _ _. reflexivity.
+    - intros _ [H|H]; discriminate H.
+    - intros _ [H|H]; discriminate H.
+    - intros g _ [H|H]; discriminate H. }
+  destruct H as (Hr & _ & Hk). split; assumption.
+Qed.
+
+(** at every commit boundary of every history, the holder of the file and
+    the public passphrase reads no secret and no passphrase *)
+Lemma public_reader_boundary T sp h st strict a :
+  table_ok T = true -> In st (boundaries T sp init h) -> reads strict (dsk st) a ->
+  class_of strict a <> Secret /\ class_of strict a <> Passphrase.
+Proof.
+  intros HT Hst Hr.
+  assert (Hd : forall r, In r (dsk st) -> ok_row strict r = true).
+  { intros r Hin. destruct (every_boundary_ok T sp h st r HT Hst Hin) as (H0 & H1 & _).
+    destruct strict; assumption. }
+  destruct (reader_learns_nothing_secret strict (dsk st) Hd) as [Hreads _].
+  destruct (Hreads a Hr) as [E|E]; rewrite E; split; discriminate.
+Qed.
+
+(* ---- what [table_ok] asks of each site, spelled out --------------------- *)
+
+Lemma table_ok_meaning T s :
+  table_ok T = true ->
+  (forall strict, cclass strict (e_content (T s)) = Secret -> priv_key strict (e_key (T s)) = true) /\
+  (forall strict, cclass strict (e_content (T s)) <> Passphrase) /\
+  content_never (e_content (T s)) = false /\
+  (site_survives s = true -> content_private (e_content (T s)) = false).
+Proof.
+  intros HT. pose proof (table_ok_entry T s HT) as H.
+  unfold entry_ok, entry_safe, seal_ok_for in H.
+  apply andb_true_iff in H. destruct H as [H Hsurv].
+  apply andb_true_iff in H. destruct H as [H Hnever].
+  apply andb_true_iff in H. destruct H as [Hf Ht].
+  repeat split.
+  - intros strict Hc. destruct strict; [rewrite Hc in Ht; exact Ht|rewrite Hc in Hf; exact Hf].
+  - intros strict Hc. destruct strict; [rewrite Hc in Ht; discriminate|rewrite Hc in Hf; discriminate].
+  - now apply negb_true_iff.
+  - intros Hs. rewrite Hs in Hsurv. simpl in Hsurv. now apply negb_true_iff.
+Qed.
+
+(** the sites' notion of survival is the slots' *)
+Lemma site_survives_slot s : site_survives s = slot_survives (site_slot s).
+Proof. destruct s; reflexivity. Qed.
+
+(** a table whose entries all pass the source-level check of their slot is [table_ok] *)
+Lemma source_check_implies_table_ok T :
+  (forall s, source_entry_ok (site_slot s) (T s) = true) -> table_ok T = true.
+Proof.
+  intros H. unfold table_ok. apply forallb_forall. intros s _.
+  specialize (H s). unfold source_entry_ok in H. unfold entry_ok. now rewrite site_survives_slot.
 Qed.
